@@ -73,7 +73,7 @@ def processAspect (a : TAspect) (output : Bytes) (err : Option String) : TAspect
 
 def step (st : TState) : TEvent → Res TState
   | .txStart g => .ok { st with gasLimit := g }
-  | .txEnd rest => .ok { st with frames := st.frames.modify 0 (fun f => { f with gasUsed := st.gasLimit - rest }) }
+  | .txEnd rest => .ok { st with frames := st.frames.modify 0 (fun f => { f with gasUsed := (st.gasLimit % U64 + U64 - rest % U64) % U64 }) }
   | .start frm to create input _ value =>
     .ok { st with frames := st.frames.modify 0 (fun f => { f with frm := frm, to := some to, input := input, gas := st.gasLimit, value := value,
                                                                   typ := if create then "CREATE" else "CALL" }) }
